@@ -38,8 +38,12 @@ CLAIMS = {
                      "pauses injecting text and EncodingIndicator suspensions at the same logical positions - reach the SAME machine: "
                      "token stream with parse errors and line numbers, configuration, unread input (suspend/resume lemmas for every "
                      "read kind, character-reference sub-tokenizer included); the run relation is proved to be the fuelled executable "
-                     "loop. Not proved, tied by differential runs in the check: the chunked-queue interpreter with bulk reads (any "
-                     "exact_errors) agrees with the reference semantics up to merging of adjacent character tokens; the Rust "
+                     "loop. Also proved (TokIR/QueueSim.v, generic): with exact_errors = true the interpreter over the chunked "
+                     "queue - the one run against the Rust code - equals the reference interpreter token for token (errors, "
+                     "lines, configuration, unread input, results) for the whole driver (feed, BOM, script injection, end). "
+                     "Not proved, tied by differential runs in the check: for exact_errors = false the chunked-queue "
+                     "interpreter with bulk reads agrees with the reference semantics up to merging of adjacent character "
+                     "tokens and the fast path's missing per-character errors; the Rust "
                      "tokenizer agrees with that interpreter; tree-builder half. Oracle: metamorphic chunking / script-injection "
                      "runs on the implementation (tokens, errors, lines, final tree).",
                 note=TOK_NOTE, tech="generic Coq suspend/resume proof over regenerated TokIR table + reference/chunked/impl differential + chunking oracle"),
@@ -68,8 +72,9 @@ CLAIMS = {
                      "queue, exact_errors = true) by the same generic theorem as C03; the run relation's side condition (reconsume flag "
                      "clear when a state starting with eat() is entered) is proved to be an invariant of the interpreter on the "
                      "regenerated table (TokIR/ChunkInv.v: kept by every step, by appended input and injected script text, true of "
-                     "every initial machine), so the relation is the fuelled executable loop on every reachable machine. Still "
-                     "_partial: the chunked-queue / bulk-read / non-exact interpreter vs the reference semantics, and the Rust code "
+                     "every initial machine), so the relation is the fuelled executable loop on every reachable machine. In exact mode the chunked-queue "
+                     "interpreter equals the reference one token for token (TokIR/QueueSim.v). Still "
+                     "_partial: the bulk-read / non-exact interpreter vs the reference semantics, and the Rust code "
                      "vs the interpreter, are tied differentially. Chunking / exact_errors / discard_bom independence of the real "
                      "parser and the normalisation law tree(x) = tree(normalise(x)) are checked metamorphically on the "
                      "implementation (tokens and trees); reference vs chunked interpreter vs Rust code tied differentially.",
